@@ -1,10 +1,6 @@
 # ---- C05: batches, scalar bridge, Algorithm.evaluate ------------------------------------------------------------------
-define("costs_disjoint", ["xs"],
-       "forall(lambda i, j: xs[i] is xs[j] or (xs[i].costs is not xs[j].costs and xs[i].costs is not xs[j].costs_signed and "
-       "xs[i].features is not xs[j].features), "
-       "(0, len(xs)), (0, len(xs))) and forall(lambda i: xs[i].costs is not xs[i].costs_signed and valid(xs[i].costs_signed), 0, len(xs))")
 define("batch_wf", ["e", "xs"],
-       "valid(e.job) and valid(e.job.problem) and costs_disjoint(xs) and "
+       "valid(e.job) and valid(e.job.problem) and "
        "forall(lambda i: valid(xs[i]) and job_wf(e.job, xs[i]) and xs[i].costs is not e.job.problem.surrogate.x_data, 0, len(xs)) and "
        "xs is not e.job.problem.failed and xs is not e.job.problem.surrogate.x_data and xs is not e.job.problem.surrogate.y_data")
 _B_ENS = [
@@ -14,11 +10,15 @@ _B_ENS = [
     "forall(lambda i: implies(old(individuals[i].state) != 0, individuals[i].state == old(individuals[i].state) and "
     "individuals[i].costs is old(individuals[i].costs) and individuals[i].vector is old(individuals[i].vector)), 0, len(individuals))",
     "forall(lambda i: implies(old(individuals[i].state) == 0, signed_image(individuals[i], self.job.problem.signs)), 0, len(individuals))",
-    "unchanged(individuals)",
+    "unchanged(individuals)", "batch_wf(self, individuals)",
+    "forall(lambda i: implies(old(individuals[i].state) == 0, len(individuals[i].costs) == self.job.problem.ghost_ncosts and "
+    "fresh(individuals[i].costs) and fresh(individuals[i].costs_signed)), 0, len(individuals))",
+    "forall(lambda i: implies(old(individuals[i].state) != 0, unchanged(individuals[i].costs) and "
+    "individuals[i].costs_signed is old(individuals[i].costs_signed)), 0, len(individuals))",
 ]
 _B_MOD = ["each(individuals).state", "each(individuals).costs", "each(individuals).costs_signed", "each(individuals).vector",
           "each(individuals).ghost_evals", "each(individuals).features.start_time", "each(individuals).features.finish_time",
-          "each(individuals).features.feasible", "list(self.job.problem.failed)", "$list.Real", "$len.Real",
+          "each(individuals).features.feasible", "list(self.job.problem.failed)", "listof(each(individuals).costs)",
           "$cv.Individual.counter"] + \
          ["self.job.problem." + g for g in ("ghost_calls", "ghost_last_arg", "ghost_last_vec", "ghost_last_ret", "ghost_nontransient", "ghost_last_g")] + \
          ["self.job.problem.surrogate." + f for f in ("eval_counter", "predict_counter", "trained", "ghost_trains", "regressor")] + \
@@ -33,7 +33,11 @@ _B_INV = [
     "signed_image(individuals[i], self.job.problem.signs)), 0, len(individuals))",
     "forall(lambda i: implies(old(individuals[i].state) != 0 or not exists(lambda t: individuals[t] is individuals[i], 0, _k), "
     "individuals[i].state == old(individuals[i].state) and individuals[i].costs is old(individuals[i].costs) and "
-    "individuals[i].vector is old(individuals[i].vector)), 0, len(individuals))",
+    "individuals[i].vector is old(individuals[i].vector) and unchanged(individuals[i].costs) and "
+    "individuals[i].costs_signed is old(individuals[i].costs_signed)), 0, len(individuals))",
+    "forall(lambda i: implies(old(individuals[i].state) == 0 and exists(lambda t: individuals[t] is individuals[i], 0, _k), "
+    "len(individuals[i].costs) == self.job.problem.ghost_ncosts and fresh(individuals[i].costs) and "
+    "fresh(individuals[i].costs_signed)), 0, len(individuals))",
 ]
 contract("artap.operators:Evaluator.evaluate_serial", props=["C05", "C09", "C14"], options={"mul": "uninterpreted"},
          types={"individuals": "List[Ref[Individual]]"},
@@ -92,7 +96,7 @@ contract("artap.algorithm:Algorithm.evaluate", props=["C05", "C09"], options=_MU
          types={"individuals": "List[Ref[Individual]]"},
          requires=["valid(self.evaluator) and self.evaluator.algorithm is self and valid(self.options)",
                    "batch_wf(self.evaluator, individuals)", "self.options['max_processes'] <= 1"],
-         ensures=[e.replace("self.job", "self.evaluator.job") for e in _B_ENS] +
+         ensures=[e.replace("self.job", "self.evaluator.job").replace("batch_wf(self,", "batch_wf(self.evaluator,") for e in _B_ENS] +
                  ["forall(lambda i: individuals[i].algorithm_id == self.uuid, 0, len(individuals))"],
          raises={"RuntimeError": [], "OtherError": []},
          loops={1: ["forall(lambda i: individuals[i].algorithm_id == self.uuid, 0, _k)"]},
@@ -135,11 +139,9 @@ define("prob_wf", ["p"],
        "p.failed is not p.parameters and p.individuals is not p.failed and p.individuals is not p.parameters and "
        "p.individuals is not p.surrogate.x_data and p.individuals is not p.surrogate.y_data")
 define("new_inds", ["xs", "n"],
-       "forall(lambda i: valid(xs[i]) and fresh(xs[i]) and xs[i].state == 0 and valid(xs[i].features) and fresh(xs[i].features) and "
-       "valid(xs[i].vector) and fresh(xs[i].vector) and valid(xs[i].costs) and fresh(xs[i].costs) and valid(xs[i].costs_signed) and "
-       "fresh(xs[i].costs_signed) and xs[i].costs is not xs[i].costs_signed, 0, n) and "
-       "forall(lambda i, j: implies(i != j, xs[i] is not xs[j] and xs[i].costs is not xs[j].costs and "
-       "xs[i].costs is not xs[j].costs_signed and xs[i].features is not xs[j].features), (0, n), (0, n))")
+       "forall(lambda i: valid(xs[i]) and fresh(xs[i]) and xs[i].state == 0 and owns(xs[i]) and fresh(xs[i].features) and "
+       "fresh(xs[i].vector) and fresh(xs[i].costs) and fresh(xs[i].costs_signed), 0, n) and "
+       "forall(lambda i, j: implies(i != j, xs[i] is not xs[j]), (0, n), (0, n))")
 contract("artap.algorithm_sweep:SweepAlgorithm.run", props=["C05"], options=_MUL,
          locals={"individuals": "List[Ref[Individual]]", "vectors": "List[List[Real]]"},
          requires=["prob_wf(self.problem)", "valid(self.generator)", "valid(self.evaluator) and self.evaluator.algorithm is self and "
